@@ -34,6 +34,8 @@ const ORDER_TARGETS: &[(u32, &str, &str)] = &[
 
 const CONST_TARGETS: &[(&str, &str)] = &[
     ("crates/ripd/src/continuities.rs", "EVENT_CHANNEL_CAPACITY"),
+    ("crates/ripd/src/runner.rs", "EVENT_CHANNEL_CAPACITY"),
+    ("crates/ripd/src/tasks/mod.rs", "EVENT_CHANNEL_CAPACITY"),
     ("crates/ripd/src/tasks/mod.rs", "OUTPUT_EVENT_MAX_BYTES"),
     ("crates/rip-tui/src/state.rs", "DEFAULT_MAX_FRAMES"),
     ("crates/rip-tui/src/state.rs", "DEFAULT_MAX_OUTPUT_BYTES"),
@@ -432,7 +434,15 @@ fn main() {
             continue;
         }
         match find_const(&parsed[*file], name) {
-            Some(v) => consts.push((name.to_string(), v)),
+            Some(v) => {
+                let stem = Path::new(file).file_stem().unwrap().to_string_lossy().to_string();
+                let stem = if stem == "mod" || stem == "lib" {
+                    Path::new(file).parent().unwrap().file_name().unwrap().to_string_lossy().to_string()
+                } else {
+                    stem
+                };
+                consts.push((format!("{}_{}", stem.replace('-', "_"), name), v))
+            }
             None => errors.push(format!("{file}: const {name} not found or not a literal expression")),
         }
     }
